@@ -2,7 +2,7 @@
 import sympy
 
 from tsg.facts import DB, strip, txt, callee, call_args, call_object, walk, const_val, short
-from tsg.flow import var_of
+from tsg.flow import var_of, is_reachable, cond_edges_dominating
 from tsg.sym import to_sympy, NotClosedForm
 from tsg.build import AnalysisBroken
 
@@ -369,6 +369,32 @@ def run(chk):
             a, b = calls[0][1], calls[1][1]
             chk.ob("C10-D5.order", f.key + f.sig, "the first inverse precedes the second on the CFG", a.get("l", 0) <= b.get("l", 0) and not must_after(f, b, a), f.loc(a))
     chk.floor("C10-D5.order", nord, 2, "instantiations of formCanonicalPoints")
+
+    # ------------------------------------------------------------------ D6 the two transforms are applied independently
+    chk.rule("C10-D6.independent", "the linear domain transform and the conformal map compose: a correction that belongs to one of them (quadrature scale, forward / inverse linear map, Jacobian "
+                                   "of the linear map; conformal point map, conformal weights) is never control dependent on a test of the other one, so setting both applies both")
+    LIN = ("getQuadratureScale", "mapCanonicalToTransformed", "mapTransformedToCanonical", "diffCanonicalTransform")
+    CON = ("mapConformalCanonicalToTransformed", "mapConformalTransformedToCanonical", "mapConformalWeights")
+    nind = 0
+    for f in db.all_functions([CPP, HPP]):
+        if f.cls != TSG or f.d.get("islambda"):
+            continue
+        for c in f.calls(into_lambda=False):
+            last = short(callee(c) or "")
+            kind = "linear" if last in LIN else "conformal" if last in CON else None
+            if kind is None or not is_reachable(f, c):
+                continue
+            other = ("conformal_asin_power",) if kind == "linear" else ("domain_transform_a", "domain_transform_b")
+            bad = []
+            for cnd, truth in cond_edges_dominating(f, c):
+                ms = {short(q.get("field") or "") for q in [cnd] + list(walk(cnd)) if q.get("k") == "MemberExpr"}
+                if ms & set(other):
+                    bad.append("%s is %s" % (txt(strip(cnd))[:50], truth))
+            nind += 1
+            chk.saw(f)
+            chk.ob("C10-D6.independent", f.key + f.sig, "%s correction %s at line %d" % (kind, last, c.get("l", 0)), not bad, f.loc(c),
+                   "applied only when %s: with both transforms set the %s part is skipped" % ("; ".join(bad), kind) if bad else "")
+    chk.floor("C10-D6.independent", nind, 12, "applications of a linear or conformal correction in the API class")
 
     return ("Static rule discharge: the rule partitions of all dispatchers are compared enumerator by enumerator; the straight-line loop bodies of each family are converted to closed forms in "
             "(x, a, b, alpha, beta) and the identities forward∘inverse = id, Jacobian = d(inverse)/dx, quadrature scale = (d forward/dx)^(1+w), support factor = d forward/dx and the images of "
